@@ -118,7 +118,9 @@ func nastyString(r *rand.Rand) string {
 
 func quoteGen(r *rand.Rand, count int, emit func(op string, args ...string)) {
 	words := []string{"echo", "cat", "--opt", "x/y.z", "A_1", "-"}
-	phs := []string{"{}", "{q}", "{+}", "{n}", "{+n}", "{1}", "{-1}", "{2..}", "{+1}", "{..2}", "{s1}", "{+2}", "\\{}", "\\{q}", "{}", "{+}"}
+	phs := []string{"{}", "{q}", "{+}", "{n}", "{+n}", "{1}", "{-1}", "{2..}", "{+1}", "{..2}", "{s1}", "{+2}", "\\{}", "\\{q}", "{}", "{+}",
+		"{1..2}", "{+1..2}", "{s2}", "{+s1..3}", "{2..3}", "{s..2}"}
+	delimLines := []string{"a,,b", "x::y:", "1, 2 , 3", "--->b", "a:b::", ",,", "k: v :", "p,q,,r,", " a , b ", ":x"}
 	for i := 0; i < count; i++ {
 		switch r.Intn(6) {
 		case 0:
@@ -147,6 +149,9 @@ func quoteGen(r *rand.Rand, count int, emit func(op string, args ...string)) {
 				if r.Intn(3) == 0 {
 					l = nastyString(r) + " " + nastyString(r) + " " + nastyString(r)
 				}
+				if r.Intn(4) == 0 {
+					l = delimLines[r.Intn(len(delimLines))]
+				}
 				lines = append(lines, []byte(l))
 			}
 			sel := "-"
@@ -158,8 +163,8 @@ func quoteGen(r *rand.Rand, count int, emit func(op string, args ...string)) {
 				sel = encInts(xs)
 			}
 			delim := "awk"
-			if r.Intn(4) == 0 {
-				delim = "d:" + encStr([]string{":", " ", ","}[r.Intn(3)])
+			if r.Intn(3) == 0 {
+				delim = "d:" + encStr([]string{":", " ", ",", ", ", "->", "::"}[r.Intn(6)])
 			}
 			emit("expand", encStrList(parts), encStr(nastyString(r)), delim, encStrList(lines), sel)
 		}
